@@ -1,2 +1,3 @@
 import MatidModel.Parse
 import MatidModel.Radii
+import MatidModel.Table
